@@ -88,7 +88,7 @@ fn ribbon_calls() -> BoxedStrategy<ApiCase> {
         1 => Just(RibbonCall::JustPressed),
         1 => Just(RibbonCall::JustReleased),
     ];
-    (0u8..16, 0u8..4, 0.0f32..=1.0, log_uniform(1.0, 1000.0), proptest::collection::vec(call, 0..60))
+    (0u8..24, 0u8..4, 0.0f32..=1.0, log_uniform(1.0, 1000.0), proptest::collection::vec(call, 0..60))
         .prop_map(|(rate_idx, softpot_idx, dropper_frac, pullup_factor, calls)| ApiCase::Ribbon { rate_idx, softpot_idx, dropper_frac, pullup_factor, calls })
         .boxed()
 }
@@ -134,7 +134,7 @@ pub fn replay(case: &Value) -> Result<(), Failure> {
 
 pub fn c17(quick: bool, seed: u64) -> Outcome {
     let mut o = Outcome::new(
-        "proptest API cases for all six modules: constructor arguments in the documented ranges (sample rates in [100 Hz,192 kHz] incl. both ends; ribbon: 16 compiled rates with helper-sized buffers and resistor triples; MIDI channel any u8) + 0..200 calls with arguments from range end points, subnormals, +-0, huge finite values and - where the statement allows - NaN/inf (quantizer inputs), MIDI bytes uniform 0..=255, ribbon samples in [0,1] incl. both ends, glide times >= 0 incl. 0/subnormal/1e30/f32::MAX, LFO frequencies in [0,fs] incl. both ends and phases of any finite value; every call runs under catch_unwind in a build with overflow-checks and debug-assertions on (any unwind = violation with the call index). Bounded liveness: generated envelope configurations (T*fs < 1 over-weighted) must reach exactly the sustain level after gate-on and exactly 0 after gate-off within 2*(N/(1-N/2^24)+2) ticks per phase. non-trivial = case with >= 1 extreme argument (end point / non-finite / subnormal / zero / |x| >= 1e9 / raw MIDI bytes) and >= 20 calls, or a liveness case with a phase shorter than one sample or an extreme parameter; distinct by hash",
+        "proptest API cases for all six modules: constructor arguments in the documented ranges (sample rates in [100 Hz,192 kHz] incl. both ends; ribbon: 24 compiled rates with helper-sized buffers and resistor triples; MIDI channel any u8) + 0..200 calls with arguments from range end points, subnormals, +-0, huge finite values and - where the statement allows - NaN/inf (quantizer inputs), MIDI bytes uniform 0..=255, ribbon samples in [0,1] incl. both ends, glide times >= 0 incl. 0/subnormal/1e30/f32::MAX, LFO frequencies in [0,fs] incl. both ends and phases of any finite value; every call runs under catch_unwind in a build with overflow-checks and debug-assertions on (any unwind = violation with the call index). Bounded liveness: generated envelope configurations (T*fs < 1 over-weighted) must reach exactly the sustain level after gate-on and exactly 0 after gate-off within 2*(N/(1-N/2^24)+2) ticks per phase. non-trivial = case with >= 1 extreme argument (end point / non-finite / subnormal / zero / |x| >= 1e9 / raw MIDI bytes) and >= 20 calls, or a liveness case with a phase shorter than one sample or an extreme parameter; distinct by hash",
     );
     o.assumptions.push("harness profile: opt-level 3, overflow-checks = on, debug-assertions = on (also for synth-utils and its dependencies)".into());
     o.assumptions.push("'fails to return' is decided as bounded liveness of the envelope; every other public operation is loop-free or bounded by the buffer capacity".into());
